@@ -255,6 +255,7 @@ class ProcAccessor(Unit):
     prop = 'C12'
     file = CTX
     timeout_none = True
+    numeric_vals_are_ints = True
     assumed_contracts = ('_collect_result resolves the future before the collector thread ends: unit C12:SpawnProcess._collect_result',
                          'done() == (exitcode is not None): unit C12:SpawnProcess.done')
 
@@ -280,6 +281,21 @@ class ProcAccessor(Unit):
             return [('ok', st2, st2.ghost['child_exited'])]
         self.me = Rec(ex, 'self', methods={'done': Fn(done), 'join': Fn(self.join_model)})
         self.me.init(st, _future_=self.fut, _result_collector_thread_=Rec(ex, 'collector', methods={'join': Fn(cjoin)}))
+        # exitcode: None until the child has exited, then some integer -- NOT determined by the outcome in the future (a child killed after it
+        # delivered its result has a negative exit code and a good result): accessors must not derive errors from it
+        self.xc = z3.Int('exitcode_final')
+
+        def exitcode(ex2, st2):
+            st2 = st2.fork()
+            new = fresh('child_exited', z3.BoolSort())
+            st2.assume(z3.Implies(st2.ghost['child_exited'], new))
+            st2.ghost['child_exited'] = new
+            return [x for x in (('ok', st2.fork().assume(new), V.intv(self.xc)), ('ok', st2.fork().assume(z3.Not(new)), NONE)) if ex2.feasible(x[1])]
+        self.me.volatile['exitcode'] = exitcode
+        ex.globals['errno'] = Module('errno')
+        ex.globals['errno.ENOTBLK'] = z3.IntVal(15)
+        ex.globals['os'] = Module('os')
+        ex.globals['os.strerror'] = Fn(lambda e, s, a, k, n: [('ok', s, fresh('strerror', z3.StringSort()))])
         st.env['self'] = self.me
         self.timeout = NONE if self.timeout_none else z3.Real('timeout')
         st.env['timeout'] = self.timeout
